@@ -38,6 +38,9 @@ type C10Op struct {
 	B  bool     `json:"b,omitempty"`  // setsent: rejected; setunread: unread
 	F  string   `json:"f,omitempty"`  // setunread: folder in|out|sent
 	SO int      `json:"so,omitempty"` // restart: 0 keep mode, 1 normal, 2 send-only
+	// Again (setunread): further SetUnread calls with these flags on the very
+	// same message object (a reader marks, unmarks, marks without listing again).
+	Again []bool `json:"again,omitempty"`
 }
 
 // ---------------------------------------------------------------------------
@@ -499,6 +502,24 @@ func (c *c10run) step(op C10Op) {
 				c.violate(false, "unread-flag", "not-updated-on-object", "after SetUnread(%v) IsUnread on the same object says %v", op.B, mailbox.IsUnread(m))
 			}
 			c.m.folder[f][b.def.MID].unread = op.B
+			for k, flag := range op.Again {
+				if k >= 6 {
+					break
+				}
+				c.sim.Probe("setunread-again-on-the-same-object")
+				if !c.call("SetUnread", func() { serr = mailbox.SetUnread(m, flag) }) {
+					return
+				}
+				c.sim.Logf("setunread again %s/%s %v -> %v", f, b.def.MID, flag, serr)
+				if serr != nil {
+					c.violate(true, "return-value", "SetUnread-error-on-repeated-call", "SetUnread(%s/%s, %v), call %d on the same message object, returned %v on a healthy disk", f, b.def.MID, flag, k+2, serr)
+					return
+				}
+				if mailbox.IsUnread(m) != flag {
+					c.violate(false, "unread-flag", "not-updated-on-object", "after SetUnread(%v) IsUnread on the same object says %v", flag, mailbox.IsUnread(m))
+				}
+				c.m.folder[f][b.def.MID].unread = flag
+			}
 			break
 		}
 	case "restart":
@@ -744,6 +765,16 @@ func genC10(tier string, r *core.Rand, run int) C10Plan {
 			plan.Ops = append(plan.Ops, op)
 		case 8:
 			plan.Ops = append(plan.Ops, C10Op{K: "setunread", M: m, B: r.Bool(), F: []string{"in", "in", "in", "out", "sent"}[r.Intn(5)]})
+			if r.Chance(0.35) {
+				last := &plan.Ops[len(plan.Ops)-1]
+				flag := last.B
+				for k := r.Range(1, 3); k > 0; k-- {
+					if r.Chance(0.8) {
+						flag = !flag
+					}
+					last.Again = append(last.Again, flag)
+				}
+			}
 		case 9:
 			so := 0
 			if r.Chance(0.25) {
